@@ -186,3 +186,46 @@ def lemma_veto_before_effect(ctx):
             ("every statement that can raise MatchError precedes the first statement that changes the molecule or the processor"
              + (f"  [last veto: line {body[max(vetoes)].lineno}, first effect: line {body[min(effects)].lineno}]" if vetoes and effects and max(vetoes) > min(effects) else ""),
              [], z3.BoolVal(bool(vetoes) and bool(effects) and max(vetoes) < min(effects)))]
+
+
+# ---- _assign_link_resids: which residue every link atom is looked up in -----------------------------------------------------
+LRES = TRec("nodeattrs", graph=TGraph(TRec("nodeattrs", order=TObj)))
+RESLINK = TGraph(LRES)
+MATCH = TDict(TNode, TNode)          # residue of the molecule -> residue-level node of the link
+r_ = z3.Const("r_", NS)
+
+
+def lgraph(res_link, ln, a):
+    nd = res_link.fields["nodes"]
+    g = nd.v.unflat([c[ln] for c in nd.comps]).fields["graph"]
+    return z3.Select(g.fields["nodes"].dom, a)
+
+
+def assigned_resids(result, res_link, match, pos=None, k=None, cur=None, apos=None, ka=None):
+    """every link atom is assigned a residue whose matched link residue holds it, and every atom of a matched link residue is assigned"""
+    seen = (lambda r: z3.BoolVal(True)) if pos is None else (lambda r: pos(r) < k)
+    mr = lambda r: match.comps[0][r]      # noqa: E731
+    val = result.comps[0][x_]
+    sound = z3.ForAll([x_], z3.Implies(z3.Select(result.dom, x_),
+                                       z3.And(z3.Select(match.dom, val), lgraph(res_link, mr(val), x_),
+                                              seen(val) if cur is None else z3.Or(seen(val), val == cur))))
+    covered = z3.And(z3.Select(match.dom, r_), seen(r_), lgraph(res_link, mr(r_), x_))
+    if cur is not None:
+        covered = z3.Or(covered, z3.And(r_ == cur, lgraph(res_link, mr(cur), x_), apos(x_) < ka))
+    complete = z3.ForAll([r_, x_], z3.Implies(covered, z3.Select(result.dom, x_)))
+    return z3.And(sound, complete)
+
+
+ASSIGN_RESIDS = REG.add(Contract(
+    "polyply.src.apply_links:_assign_link_resids",
+    params=dict(res_link=RESLINK, match=MATCH), result=TDict(TNode, TNode),
+    requires={"matched link residues are residues of the link": "match_wf(res_link, match)"},
+    ensures={"every link atom is assigned a residue whose matched link residue contains it; the atoms of all matched link residues are assigned":
+             "assigned_resids(result, res_link, match)"},
+    locals={"link_node_to_resid": TDict(TNode, TNode)},
+    loops={0: Loop({"assigned so far": "assigned_resids(link_node_to_resid, res_link, match, _pos0, k)"}),
+           1: Loop({"assigned so far": "assigned_resids(link_node_to_resid, res_link, match, _pos0, k, resid, _pos1, ka)"}, index="ka")},
+    spec_fns=dict(assigned_resids=assigned_resids,
+                  match_wf=lambda rl, m: z3.ForAll([r_], z3.Implies(z3.Select(m.dom, r_), z3.Select(rl.fields["nodes"].dom, m.comps[0][r_])))),
+    props=("C02",)))
+CONTRACTS = [FIND_ATOMS, MATCH_LINK, ASSIGN_RESIDS]
